@@ -35,6 +35,7 @@ func runC13(c *Ctx) {
 	c13Provenance(c)
 	c13Compare(c)
 	c13Always(c)
+	c13CRCField(c)
 	// after a corrupted page made the underlying reader fail, the asynchronous
 	// wrapper must keep reporting that error instead of resuming from an
 	// unknown stream position
@@ -489,4 +490,54 @@ func instrsAfter(ins ssa.Instruction) []ssa.Instruction {
 		walk(s)
 	}
 	return out
+}
+
+// c13CRCField: the checksum field of a page header has two legitimate
+// writers: the thrift decoder (through reflection/generated code, not a field
+// store in this package) and the page writers, which store the checksum they
+// just computed. Any other store — clearing it before the comparison is the
+// obvious one, because a zero checksum means "not verified" — lets a page
+// bypass verification. Every store into format.PageHeader.CRC in the library
+// takes its value from the checksum function of the write buffers.
+func c13CRCField(c *Ctx) {
+	rule := "C13.crcfield"
+	p := c.P
+	crc := p.LookupField("format.PageHeader", "CRC")
+	if !c.Anchor(rule, "format.PageHeader.CRC", crc != nil) {
+		return
+	}
+	n := 0
+	for _, fn := range p.ModuleSSAFuncs() {
+		if fn.Origin() != nil || fn.Blocks == nil {
+			continue
+		}
+		k := 0
+		allInstrs(fn, false, func(_ *ssa.Function, ins ssa.Instruction) {
+			st, ok := ins.(*ssa.Store)
+			if !ok {
+				return
+			}
+			fs, _, elem := fieldChain(st.Addr)
+			if len(fs) == 0 || elem || fs[len(fs)-1] != crc {
+				return
+			}
+			n++
+			computed := false
+			for _, o := range Origins(st.Val, OriginOpts{ThroughBinOp: true}) {
+				if o.Kind == OrgCall {
+					if sc := o.Call.Common().StaticCallee(); sc != nil && strings.Contains(strings.ToLower(fnName(sc)), "crc32") {
+						computed = true
+					}
+				}
+			}
+			key := FuncKey(fn) + ": value stored into PageHeader.CRC"
+			if k > 0 {
+				key += " #" + itoa(k)
+			}
+			k++
+			c.Check(rule, key, st.Pos(), computed, FuncKey(fn)+" assigns the checksum field of a page header a value that is not a freshly computed checksum: a stored checksum that is cleared or replaced before it is compared makes the reader skip verification of that page (zero means not verified)")
+		})
+	}
+	c.Stats[rule+".stores"] = n
+	c.Min(rule, 2)
 }
